@@ -33,7 +33,7 @@ import heapq as _real_heapq
 import itertools
 import types
 
-from mc.runner import Run, Stats, HarnessError
+from mc.runner import Run, Stats, HarnessError, NCPU
 
 import clematis.engine.stages.t1 as t1mod
 from clematis.engine.types import Config, Node, Edge
@@ -1148,12 +1148,12 @@ def run(run: Run) -> None:
     kw_sets = keyword_nodesets()
     run.notes["keyword_holder_nodesets"] = len(kw_sets)
     run.pmap(_keywords_worker, kw_sets, extra=(tier,))
-    hist_items = ([(g, None, TEXTS[1:]) for g in enum_graphs(0, [1.0], ["supports"]) + enum_graphs(1, [1.0], ["supports"])]
+    hist_items = ([(g, None, [t]) for g in enum_graphs(0, [1.0], ["supports"]) + enum_graphs(1, [1.0], ["supports"]) for t in TEXTS[1:]]
                   + [(g, ARM_NODES, ARM_TEXTS[:1]) for g in arm_graphs()[::7]])
     run.notes["history_scenes"] = sum(len(t) for _g, _n, t in hist_items)
     run.notes["call_histories"] = len(history_space(tier))
     run.notes["history_cache_kinds"] = [list(k) for k in (CACHE_KINDS_THOROUGH if run.thorough else CACHE_KINDS_QUICK)]
-    run.pmap(_history_worker, hist_items, extra=(tier,))
+    run.pmap(_history_worker, hist_items, extra=(tier,), procs=NCPU)
     run.rule += ("; plus keyword holders: every assignment of labels {apple, Apple, pear} to the 3 nodes x tag lists {none, [APPLE], [Pear, pear]} on "
                  "one node x {none, [apple]} on another (162 node sets: keywords unique / shared by 2-3 nodes as label or tag / doubled on one "
                  "node) x " + ("<=1-edge graphs over weights {-.5,1} x {supports,unknown}" if run.thorough else "<=1-edge graphs (weight 1, supports)")
